@@ -17,6 +17,7 @@ import (
 	dtpb "github.com/google/fhir/go/proto/google/fhir/proto/r4/core/datatypes_go_proto"
 	"github.com/verily-src/fhirpath-go/fhirpath"
 	"github.com/verily-src/fhirpath-go/fhirpath/compopts"
+	"github.com/verily-src/fhirpath-go/fhirpath/evalopts"
 	"github.com/verily-src/fhirpath-go/fhirpath/system"
 	"github.com/verily-src/fhirpath-go/internal/fhir"
 	"google.golang.org/protobuf/proto"
@@ -92,6 +93,10 @@ func observe(fn string, in system.Collection, args ...any) *opCtx {
 	}
 	return oc
 }
+
+type concreteErr struct{}
+
+func (*concreteErr) Error() string { return "concrete" }
 
 // c17Callback returns the Go function for a catalogue key of this mode (nil: not one of them).
 func c17Callback(key string) (any, bool) {
@@ -174,6 +179,8 @@ func c17Callback(key string) (any, bool) {
 			return func(in system.Collection) (system.Collection, error, int) { return in, nil, 0 }, true
 		case "noresults":
 			return func(in system.Collection) {}, true
+		case "concreteerr": // a concrete type that implements error is not the error interface
+			return func(in system.Collection) (system.Collection, *concreteErr) { return in, nil }, true
 		}
 	}
 	return nil, false
@@ -263,6 +270,9 @@ type c17Exec struct {
 	progs map[string]*compiled
 	r     *runCtx
 	in    *inputs
+	// two options of the caller's that sit behind every option window, and programs that read them back
+	sentinelOpts [2]fhirpath.EvaluateOption
+	sentinelProg [2]*compiled
 }
 
 func (e *c17Exec) violate(oracle, class, detail string) {
@@ -293,6 +303,9 @@ func (e *c17Exec) checkCompile(i int, cp *C17Compile) {
 		return // totality is C01's subject
 	}
 	st.probe("compile-list-checked")
+	if !p.compileTailIntact() {
+		e.violate("option-model", "caller-options-overwritten", where+": Compile wrote into the caller's option slice behind the options it was given")
+	}
 	if wantFail {
 		st.fault("option-fail")
 		if p.err == nil {
@@ -368,6 +381,7 @@ func (e *c17Exec) runOp(in *inputs, oc *opCtx, ci, oi int, op *C17Op) string {
 	resources := pickResources(&Op{Res: op.Res}, in.resources)
 	var got system.Collection
 	var gerr error
+	var sentinelTail []fhirpath.EvaluateOption
 	panicked := ""
 	func() {
 		defer func() {
@@ -375,9 +389,25 @@ func (e *c17Exec) runOp(in *inputs, oc *opCtx, ci, oi int, op *C17Op) string {
 				panicked = maskPtr(fmt.Sprint(pv))
 			}
 		}()
-		got, gerr = p.fp.Evaluate(resources, opts...)
+		// the options are handed over as a window of a longer slice: what lies behind the window
+		// belongs to the caller
+		full := append(append(make([]fhirpath.EvaluateOption, 0, len(opts)+2), opts...), e.sentinelOpts[0], e.sentinelOpts[1])
+		got, gerr = p.fp.Evaluate(resources, full[:len(opts)]...)
+		sentinelTail = full[len(opts):]
 	}()
 	st.NodeSteps += oc.nodes
+	if panicked == "" && sentinelTail != nil {
+		for k := 0; k < 2; k++ {
+			save := *oc
+			out, err := e.sentinelProg[k].fp.Evaluate(nil, sentinelTail[k])
+			*oc = save
+			if err != nil || len(out) != 1 || out[0] != system.String(fmt.Sprintf("sentinel-%d", k)) {
+				e.violate("option-model", "caller-options-overwritten", fmt.Sprintf("%s: the caller's option slice was written to behind the options it passed (slot %d no longer holds the caller's option: %v %v)", where, k, out, err))
+				break
+			}
+		}
+		st.probe("option-slice-tail-checked")
+	}
 	if panicked != "" {
 		return "panic" // not asserted here
 	}
@@ -727,6 +757,10 @@ func execC17(t *testing.T, c *Case) *Verdict {
 		setRun(r)
 		defer setRun(nil)
 		e.r, e.in = r, in
+		for k := 0; k < 2; k++ {
+			e.sentinelOpts[k] = evalopts.EnvVariable(fmt.Sprintf("zs%d", k), system.String(fmt.Sprintf("sentinel-%d", k)))
+			e.sentinelProg[k] = compile(ProgSpec{Src: fmt.Sprintf("%%zs%d", k)}, nil)
+		}
 		v.Stats.probeN("enumerated-evaluate-option-lists", c.C17.EnumEval)
 		v.Stats.probeN("enumerated-compile-option-lists", c.C17.EnumCompile)
 		for i := range c.C17.Compiles {
